@@ -26,7 +26,8 @@ cfg("sim", "Lens_sim", "Kinds_sim", 8, 8, opset="FlatOps", life=True, retains=3,
 # thorough
 cfg("gen_t23", "Lens_2x3", "Kinds_c2", 3, 3, comment="thorough: <=3 operations over <=2 leaves of length <=3 (second may be empty); emitted")
 cfg("gen_t3", "Lens_f212", "Kinds_cdf3", 3, 3, huge=True, comment="thorough: <=3 operations over 3 leaves (lengths 2,1,2; custom/DEFAULT/FREE); emitted")
-cfg("gen_t4", "Lens_f21", "Kinds_c2", 4, 4, comment="thorough: <=4 operations (4-record composites, depth 4) over leaves of length 2 and 1; emitted")
-cfg("life_t", "Lens_f22", "Kinds_c2", 2, 2, life=True, retains=1, connected=False, comment="thorough: all interleavings of retain/release with <=2 operations over 2 leaves; emitted")
+cfg("gen_t4", "Lens_f2", "Kinds_c1", 4, 4, comment="thorough: every operation tree of <=4 operations (depth <=4; 4- and 8-record composites) over one leaf of length 2; emitted")
+cfg("life_t", "Lens_f212", "Kinds_cdf3", 2, 2, life=True, retains=0, connected=True, comment="thorough: all interleavings of release (all release orders) with <=2 connected operations over 3 leaves (custom/DEFAULT/FREE); emitted")
+cfg("lifer_t", "Lens_f2", "Kinds_c1", 2, 2, life=True, retains=1, connected=False, comment="thorough: all interleavings of retain/release with <=2 operations over one leaf; emitted")
 cfg("flat_t", "Lens_f21", "Kinds_c2", 3, 3, opset="FlatOps", connected=False, comment="thorough: dispatch_data_get_flattened_bytes_4libxpc interleaved with <=3 operations; emitted")
-cfg("alg_t", "Lens_3x3", "Kinds_c3", 3, 3, hist="none", emit=False, comment="thorough: model checking only, <=3 operations, depth <=3, <=3 leaves of length <=3 (third may be empty)")
+cfg("alg_t", "Lens_f321", "Kinds_c3", 3, 3, hist="none", emit=False, connected=False, huge=False, comment="thorough: model checking only (no history: op sequences reaching the same heap are merged), any <=3 operations, connected or not, depth <=3, over <=3 leaves of lengths 3,2,1")
